@@ -338,8 +338,27 @@ def run(ctx):
         ctx.bump('level.%s' % level)
         try:
             with contextlib.redirect_stdout(io.StringIO()):
-                r = pc.check_dataframe(act.copy(), ref.copy(), precision=precision, type_matching=level,
+                # the caller's own frames, compared twice: the second verdict is about the same frames, which the first
+                # comparison has left as they were
+                act_in, ref_in = act.copy(), ref.copy()
+                r = pc.check_dataframe(act_in, ref_in, precision=precision, type_matching=level,
                                        create_temporaries=False, **flags)
+                if it % 3 == 0:
+                    r_again = pc.check_dataframe(act_in, ref_in, precision=precision, type_matching=level,
+                                                 create_temporaries=False, **flags)
+                    if (r.failures == 0) != (r_again.failures == 0):
+                        ctx.fail(case, 'comparing the same two frame objects a second time says %s, the first time %s'
+                                 % ('correct' if r_again.failures == 0 else 'different', 'correct' if r.failures == 0 else 'different'))
+                    # ... and each frame still passes against the copy taken before the comparison (all checks, no options)
+                    for nm_, now_, was_ in (('actual', act_in, act), ('reference', ref_in, ref)):
+                        try:
+                            rr = pc.check_dataframe(now_, was_.copy(), create_temporaries=False)
+                        except Exception:
+                            continue
+                        r0 = pc.check_dataframe(was_.copy(), was_.copy(), create_temporaries=False)
+                        if rr.failures != 0 and r0.failures == 0:
+                            ctx.fail(case, 'after the comparison the %s frame no longer compares as correct with the copy taken '
+                                     'before it: the comparison changed the frame it was given' % nm_)
             got = {'same': r.failures == 0, 'missing': sorted(name_key(c) for c in r.diffs.df.missing),
                    'extra': sorted(name_key(c) for c in r.diffs.df.extra),
                    'types': sorted(name_key(c) for c in r.diffs.df.field_types),
